@@ -583,9 +583,7 @@ class PendingAssign(PendingNode[Assign | AnnAssign]):
     def assign_subscript(self, target: Subscript, value: expr):
         # transform first: the name "slice" added by convert_slice is a builtin,
         # not a name of the script
-        _slice = expr_transf(self.nsp, target.slice)
-        if isinstance(_slice, Slice):
-            _slice = utils.convert_slice(_slice)
+        _slice = utils.convert_index(expr_transf(self.nsp, target.slice))
 
         return Call(
             func=Attribute(
@@ -780,9 +778,7 @@ class PendingAugAssign(PendingNode[AugAssign]):
 
             # transform first: the name "slice" added by convert_slice is a
             # builtin, not a name of the script
-            slice_expr = expr_transf(self.nsp, target.slice)
-            if isinstance(slice_expr, Slice):
-                slice_expr = utils.convert_slice(slice_expr)
+            slice_expr = utils.convert_index(expr_transf(self.nsp, target.slice))
 
             # save slice expr to a tmp
             return_list.append(
